@@ -72,9 +72,12 @@ MANIFEST = {
                   'completions / start_task deliveries the completion logic and action scheduling run at most once. '
                   'start_workflow with an id: for ALL request sequences ids stay unique and a redelivered request '
                   'creates nothing. Model tied to the code by exhaustive/random differential runs of the real methods.',
-    'level_note': 'Component level: whole-engine statements (final view with duplicates = final view without) are '
-                  'checked here by the implementation-side oracle on the real engine only; the engine-level theorems '
-                  'come from Model/Engine.v. Trusted: threading/join semantics, SQLAlchemy primary-key uniqueness and '
+    'level_note': 'Whole-engine statement (final view with duplicates = final view without): proved over Model/Engine.v '
+                  'for join-free forward command-free definitions with constant guards (C06_duplicates_same_result_simple: '
+                  'repeated start requests at any time and repeated results for action executions that already accepted '
+                  'one, mixed with pauses/resumes, leave the executions per task, the final task states and the workflow '
+                  'state unchanged); beyond that class (joins, cycles, engine commands, output) it is decided by trace '
+                  'correspondence with injected duplicates plus the implementation-side oracle on the real engine. Trusted: threading/join semantics, SQLAlchemy primary-key uniqueness and '
                   'transaction rollback, the fake action / engine-client / db stubs used to drive the real methods; '
                   'one transaction = one atomic step.',
     'technique': 'Coq proof (finite case analysis + list induction) over hand model; exhaustive differential correspondence; '
